@@ -97,9 +97,54 @@ pub struct Ctx<'a> {
     /// lazily built description of the current case, attached to violations
     pub case: Value,
     pub family: String,
+    pub seed: u64,
+    pub prop: &'static str,
+    pub stream_name: &'static str,
+    /// true inside a sacrificial child process: perform the dangerous library calls only
+    pub probe: bool,
+}
+
+/// outcome of running the current case's dangerous calls in a sacrificial child process
+#[derive(Debug, PartialEq)]
+pub enum Probe {
+    Survived,
+    /// the child aborted (allocation failure), crashed, or was stopped by the time limit
+    Died(String),
 }
 
 impl<'a> Ctx<'a> {
+    /// Re-run the current case in a child process with an address-space limit and a time limit,
+    /// in probe mode (the run function performs the library calls that may not terminate and
+    /// returns).  Used where a non-terminating call lives in unhooked third-party code and would
+    /// otherwise take the whole monitor down.
+    pub fn probe_in_child(&self, mem_kb: u64, timeout_s: u64) -> Probe {
+        if self.probe {
+            return Probe::Survived;
+        }
+        let exe = match std::env::current_exe() {
+            Ok(e) => e,
+            Err(e) => return Probe::Died(format!("cannot locate the harness executable: {e}")),
+        };
+        let cmd = format!(
+            "ulimit -v {mem_kb}; exec timeout -s KILL {timeout_s} '{}' {} --tier {} --seed {} --probe-case {} {} >/dev/null 2>&1",
+            exe.display(),
+            self.prop,
+            if self.thorough { "thorough" } else { "quick" },
+            self.seed,
+            self.stream_name,
+            self.index
+        );
+        match std::process::Command::new("sh").arg("-c").arg(&cmd).status() {
+            Ok(st) if st.success() => Probe::Survived,
+            Ok(st) => Probe::Died(match st.code() {
+                Some(137) | None => format!("killed after {timeout_s} s or by a signal (did not terminate)"),
+                Some(134) => "aborted (memory allocation failure: unbounded growth)".to_string(),
+                Some(c) => format!("exit status {c}"),
+            }),
+            Err(e) => Probe::Died(format!("cannot spawn: {e}")),
+        }
+    }
+
     /// Declare the family of the current case (counted once per case).
     pub fn family(&mut self, name: &str) {
         self.family = name.to_string();
